@@ -77,8 +77,8 @@ pub struct HistCfg {
     pub lang: LangId,
     pub gen: GenCfg,
     pub max_ops: usize,
-    /// weights of the op kinds: add, unrelated, permuted, renamed, context, reorder, existing, congruent-parents
-    pub weights: [usize; 8],
+    /// weights of the op kinds: add, unrelated, permuted, renamed, context, reorder, existing, congruent-parents, symmetric-then-redundant
+    pub weights: [usize; 9],
     pub namings: Vec<Naming>,
 }
 
@@ -93,7 +93,7 @@ impl HistCfg {
                 ..GenCfg::default()
             },
             max_ops: 6,
-            weights: [2, 2, 3, 3, 3, 2, 3, 2],
+            weights: [2, 2, 3, 3, 3, 2, 3, 2, 2],
             namings: vec![Naming::Alpha],
         }
     }
@@ -144,7 +144,7 @@ pub fn decode_hist_from(cfg: &HistCfg, chunks: &[Vec<u16>], naming_choice: u16, 
             }
             w -= wi;
         }
-        let mut push_add = |t: Tm, ops: &mut Vec<HOp>, terms: &mut Vec<Tm>, n_terms: &mut usize| -> usize {
+        let push_add = |t: Tm, ops: &mut Vec<HOp>, terms: &mut Vec<Tm>, n_terms: &mut usize| -> usize {
             ops.push(HOp::Add(t.clone()));
             terms.push(t);
             *n_terms += 1;
@@ -290,6 +290,28 @@ pub fn decode_hist_from(cfg: &HistCfg, chunks: &[Vec<u16>], naming_choice: u16, 
                 let i = push_add(Tm::leaf(o1.name, &a1), &mut ops, &mut terms, &mut n_terms);
                 let j = push_add(Tm::leaf(o2.name, &a2), &mut ops, &mut terms, &mut n_terms);
                 ops.push(HOp::Union(i, j));
+            }
+            8 => {
+                // a term made symmetric under a random permutation of its free names, then one of its names made redundant:
+                // orbits that become redundant only in part, cycles that survive on the remaining slots
+                let a = if n_terms > 0 && src.coin(1, 4) { terms[src.pick(n_terms)].clone() } else { mk(&mut src) };
+                let fv: Vec<Name> = a.fv().into_iter().collect();
+                let i = push_add(a.clone(), &mut ops, &mut terms, &mut n_terms);
+                if fv.len() < 2 {
+                    continue;
+                }
+                let sigma = random_perm(&fv, &mut src);
+                let b = unfreshen(&a.rename_free(&sigma));
+                let j = push_add(b, &mut ops, &mut terms, &mut n_terms);
+                ops.push(if src.coin(1, 2) { HOp::Union(i, j) } else { HOp::Union(j, i) });
+                let lacking: Vec<Name> = (0..cfg.gen.alphabet + 1).filter(|n| !fv.contains(n)).collect();
+                let x = fv[src.pick(fv.len())];
+                let z = lacking[src.pick(lacking.len())];
+                let mut m = BTreeMap::new();
+                m.insert(x, z);
+                let c = unfreshen(&a.rename_free(&m));
+                let k = push_add(c, &mut ops, &mut terms, &mut n_terms);
+                ops.push(if src.coin(1, 2) { HOp::Union(i, k) } else { HOp::Union(k, i) });
             }
             7 => {
                 // two parents over the same names whose children (multi-slot leaves, one of them possibly symmetric, in
